@@ -72,10 +72,8 @@ def kernel_a(prog, rep, N, cands):
                 if m is not None:
                     cands.append(dict(kernel='a', role='not-the-best-branch', parents=parents, got=ids, model=m, ts=ts))
 
-            try:
-                explore(prog, scenario, stats=st)
-            except Panic as e:
-                cands.append(dict(kernel='a', role='trap', parents=parents, msg=str(e), ts=ts, model=None))
+            explore(prog, scenario, stats=st, on_panic=lambda it, e: cands.append(
+                dict(kernel='a', role='trap', parents=parents, msg=str(e), ts=ts, model=it.model_ if it.feasible() else None)))
             # reachability witness: every leaf is the answer for some difficulty assignment
             if tips_seen == set(ts.leaves):
                 rep.cov['witnesses'] += 1
@@ -160,10 +158,8 @@ def kernel_b(prog, rep, N, cands):
                 out['hdr_len'] = it.call('unstable_blocks::get_main_chain_length', [ub])
                 return check_b(it, rep, ts, out, sh, cands, parents)
 
-            try:
-                explore(prog, scenario, stats=st)
-            except Panic as e:
-                cands.append(dict(kernel='b', role='trap', parents=parents, msg=str(e), ts=ts, model=None))
+            explore(prog, scenario, stats=st, on_panic=lambda it, e: cands.append(
+                dict(kernel='b', role='trap', parents=parents, msg=str(e), ts=ts, model=it.model_ if it.feasible() else None)))
     rep.add_stats(st, 'b:endpoints')
 
 
